@@ -22,8 +22,31 @@ func racePass(name string) map[string]interface{} {
 	cmd := exec.Command(bin, "racebody", name)
 	cmd.Env = append(os.Environ(), "VERIF_REALTIME=1", "VERIF_RACE=1", "GORACE=halt_on_error=0 exitcode=0")
 	out, err := cmd.CombinedOutput()
-	n := strings.Count(string(out), "WARNING: DATA RACE")
-	res := map[string]interface{}{"ran": true, "data_races": n}
+	// only reports that involve a function of the repository count; a race between two harness functions is the
+	// harness's own defect and must not be blamed on the code under test
+	n, own := 0, 0
+	var kept []string
+	for _, blk := range strings.Split(string(out), "==================") {
+		if !strings.Contains(blk, "WARNING: DATA RACE") {
+			continue
+		}
+		repoFrame := false
+		for _, line := range strings.Split(blk, "\n") {
+			if strings.Contains(line, "gca-backend/") && strings.Contains(line, "(") && !strings.Contains(line, "Verif") {
+				repoFrame = true
+			}
+		}
+		if repoFrame {
+			n++
+			kept = append(kept, blk)
+		} else {
+			own++
+		}
+	}
+	if n > 0 {
+		out = []byte(strings.Join(kept, "=================="))
+	}
+	res := map[string]interface{}{"ran": true, "data_races": n, "harness_only_reports": own}
 	if err != nil {
 		res["error"] = err.Error()
 	}
